@@ -125,13 +125,13 @@ def _framing(msg: Msg, request_method: bytes | None):
     te = msg.get_all(b"transfer-encoding")
     cl = msg.get_all(b"content-length")
     if msg.kind == "resp":
-        if request_method is not None and request_method.upper() == b"HEAD":
+        if request_method is not None and request_method == b"HEAD":
             return "none", 0
         if 100 <= msg.status <= 199 or msg.status in (204, 304):
             if te and (msg.status < 200 or msg.status == 204):
                 msg.flags.add("te-on-bodyless-status")
             return "none", 0
-        if request_method is not None and request_method.upper() == b"CONNECT" and 200 <= msg.status <= 299:
+        if request_method is not None and request_method == b"CONNECT" and 200 <= msg.status <= 299:
             return "tunnel", 0
     if te:
         if cl:
@@ -211,7 +211,7 @@ def _read_chunked(data: bytes, pos: int, msg: Msg):
 
 
 def _parse_request_line(start: bytes, msg: Msg):
-    parts = re.split(rb"[ \t\x0b\x0c\r]+", start)
+    parts = re.split(rb"[ \t\x0b\x0c\r]+", start.strip(WS))  # 9112 section 3: MAY ignore preceding/trailing whitespace
     if len(parts) != 3:
         raise Reject("request-line-not-3-parts")
     m, t, v = parts
